@@ -5,10 +5,18 @@
   through `Hooks` (SimVerif/Drv/Kernel.lean).
 -/
 import SimVerif.Basic
+import SimVerif.HttpServer
 
 namespace SimVerif.Drv
 
+/-- one `sim::http_server` object of a scenario -/
+structure HttpInst where
+  node    : String
+  srv     : HttpServer.Srv := {}
+  wrClose : Bool := false          -- the `close` argument bound into the pending `on_write`
+
 structure ExtSt where
   unused : Unit := ()
+  http : List (String × HttpInst) := []      -- HTTP test servers `w<k>` (Drv/HttpSrv.lean)
 
 end SimVerif.Drv
